@@ -148,7 +148,7 @@ def _setup(tier: str, seed: int) -> None:
     key = (tier, seed)
     if _STATE.get("key") == key:
         return
-    kmax = 4 if tier == "quick" else 6
+    kmax = 4 if tier == "quick" else 5
     progs = _programs(seed, tier)
     subs = {}
     for name, plist in progs.items():
@@ -163,7 +163,7 @@ def _setup(tier: str, seed: int) -> None:
     srcs = grammar.loader_sources(seed)
     _STATE.update(
         kmax=kmax,
-        dev=2 if tier == "quick" else 3,
+        dev=2,
         key=key,
         subs=subs,
         data=[ds[1], ds[2], ds[7]],
